@@ -13,15 +13,26 @@ from ..core import frac
 
 LEVEL = "proof"
 RULE = ("random region tables (1..4 dozen rows; chromosome names 1..22/X/Y/M/MT, 3-digit numbers, alt/random/Un/hap "
-        "contigs, dotted accessions, with or without chr prefix; unsorted or sorted; coordinates 0..3e8 incl. 0 and "
-        "3e8; duplicated and nested rows; gene labels with commas/dots/dashes) are (a) rendered by the harness itself "
-        "in each format's own convention (bed/bed3/bed4 with track/browser lines, tab, interval list with @-header, "
-        "chr:start-end text with/without gene, GFF with directives, SEG with junk lines / 5-6 columns / 1-4 samples, "
-        "Picard per-target, VCF sites/simple with END= or alleles) and read with tabio.read [fmt_read]; (b) sniffed and "
-        "read with read_auto vs the intended reader [fmt_auto]; (c) written with tabio.write as tab(.cnn/.cnr/.cns via "
-        "cnvlib.read, and plain GenomicArray)/bed3/bed4/interval/text, read back, written again twice [fmt_roundtrip]; "
-        "(d) 1..4 samples sent through export seg -> import-seg -> read -> export seg [seg_roundtrip]. Extra numeric "
-        "columns hold arbitrary finite floats (random bit patterns, dyadics, 6-digit rounding ties, 1e+-300, integral). "
+        "contigs, dotted accessions, with or without a chr prefix in any letter case (chr/CHR/Chr), lower-case x/y/m; "
+        "unsorted or sorted; coordinates 0..3e8 incl. 0 and 3e8; duplicated and nested rows; gene labels with "
+        "commas/dots/dashes) are (a) rendered by the harness itself in each format's own convention (bed/bed3/bed4 with "
+        "track/browser lines, tab with shuffled columns and empty cells (a row without log2 is dropped) read by tabio.read "
+        "and -- with gene+log2 -- by cnvlib.read, interval list with @-header and empty name fields, chr:start-end text "
+        "with/without gene, GFF with directives, SEG with junk lines / 5-6 columns / 1-4 samples / selection by index or "
+        "name / chrom_names and chrom_prefix renaming, Picard per-target, VCF sites/simple with END= or without (end from "
+        "the allele lengths); blank lines inside the pandas-read formats; with or without a final newline; given as a "
+        "path or as an open handle) and read with tabio.read [fmt_read]; (a') written by each real writer (bed, bed3, "
+        "bed4, interval, text, tab, seg via tabio.write(chrom_ids=False), picardhs) and read by each compatible real "
+        "reader (11 writer/reader pairs incl. bed4->bed3, bed->bed/bed3/bed4) [fmt_read with written_by]; (b) sniffed and "
+        "read through read_auto(path) / read_auto(open handle) / tabio.read(path, 'auto') vs the intended reader, incl. "
+        "leading blank lines, empty files and VCFs of single-base substitutions (pysam reader, judged against the "
+        "regions written) [fmt_auto]; (c) written with tabio.write as tab(.cnn/.cnr/.cns/.tsv via cnvlib.read, and "
+        "plain GenomicArray)/bed3/bed4/interval/text to a path, an open handle or into a directory that does not exist "
+        "yet, read back (path or handle), written again twice [fmt_roundtrip]; in 40 % of (a'),(c) and 30 % of (b),(d) the "
+        "written table is a filtered subset of a larger array (pandas index labels != positions); in 30 % of (c) the same "
+        "table object is first written in 1..3 other formats; (d) 1..4 samples sent through export seg -> import-seg -> "
+        "read -> export seg, 12 % through the cnvkit.py argument parser [seg_roundtrip]. Extra numeric columns hold "
+        "arbitrary finite floats (random bit patterns, dyadics, 6-digit rounding ties, 1e+-300, integral). "
         "non-trivial = table has >= 2 rows on >= 2 chromosomes or an extra column; distinct by hash of the case")
 EXHAUSTIVE = {"quick": False, "thorough": False}
 ASSUMPTIONS = [
@@ -33,6 +44,9 @@ ASSUMPTIONS = [
     "chromosome names (and gene labels outside tab files: interval lists, SEG) are not pandas NA spellings (NA, nan, NULL, "
     "None, ...), not purely numeric with leading zeros, and contain no tab/quote/@/# characters; floats are finite, "
     "not -0.0, not subnormal",
+    "the pysam-based reader behind fmt 'vcf' is outside the Lean model (only the sniffer's answer is modelled): the table "
+    "read_auto returns for a VCF is judged by the harness against the regions it wrote (coordinates, alleles, order); "
+    "SEG renaming options are tied by handing the Lean reader the same file with the names already replaced",
 ]
 TRUSTED_EXTRA = ["pandas read_csv / to_csv tokenising, dtype inference and NA spellings", "Python re for the sniff patterns and re_label",
                  "Python/pandas decimal printing of ints and '%.6g'", "pandas stable multi-key mergesort on (tuple key, start, end)"]
@@ -255,6 +269,12 @@ def _author(rng, fmt, nmax=30, canonical_tab=False):
                 d[n] = _render_cell_truth(cell)
             lines.append([d[n] for n in perm])
         t = _truth_numbers(t)
+        for j in range(len(t["names"])):
+            if any(r[3][j] is None for r in t["rows"]):
+                # an integer column with a missing cell is a float column in pandas
+                for r in t["rows"]:
+                    if r[3][j] is not None and r[3][j][0] == "i":
+                        r[3][j] = _cell_f(float(r[3][j][1]))
         if "log2" in t["names"]:
             li = t["names"].index("log2")
             t["rows"] = [r for r in t["rows"] if r[3][li] is not None]  # "every bin needs a log2 value"
@@ -345,6 +365,16 @@ def _author(rng, fmt, nmax=30, canonical_tab=False):
             cells = {"gene": ["s", "-"], "log2": _cell_f(float(l[-1])), "probes": ["i", int(l[4])] if six else None}
             trows.append([c, s, e, [cells[n] for n in names]])
         extra["sel"] = sel
+        if rng.random() < 0.3:
+            # read_seg / import-seg options: rename chromosomes (-c, e.g. the "human" preset) and / or prefix them (-p)
+            present = sorted({l[1] for _s, l in body})
+            cn = {"23": "X", "24": "Y", "25": "M"} if rng.random() < 0.5 else {}
+            for c in rng.sample(present, min(len(present), rng.randint(0, 2))):
+                cn[c] = rng.choice(["X", "Y", "7", c + "_alt", "chrQ"])
+            pre = rng.choice([None, "chr", "c_"])
+            if cn or pre:
+                extra["seg_opts"] = {"chrom_names": cn or None, "chrom_prefix": pre}
+                trows = [[_seg_rename(extra["seg_opts"], c), s, e, cells] for c, s, e, cells in trows]
         return lines, {"names": names, "rows": trows}, [n for n in names if n != "gene"], extra
     if fmt == "picardhs":
         lines = [["chrom", "start", "end", "length", "name", "%gc", "mean_coverage", "normalized_coverage"]]
@@ -389,6 +419,23 @@ def _author(rng, fmt, nmax=30, canonical_tab=False):
         extra["keep"] = ["alt", "ref"]
         return _blank_lines(rng, lines, nhead), {"names": ["alt", "ref"], "rows": trows}, ["alt", "ref"], extra
     raise ValueError(fmt)
+
+
+def _seg_rename(opts, c):
+    return (opts.get("chrom_prefix") or "") + (opts.get("chrom_names") or {}).get(c, c)
+
+
+def _seg_renamed_lines(opts, lines):
+    """the same SEG file as a tool that already uses the target names would have written it (the Lean reader has no
+    renaming options: it reads this file, the real reader gets the original file and the options)"""
+    out, body = [], False
+    for l in lines:
+        if body and len(l) > 1:
+            l = [l[0], _seg_rename(opts, l[1])] + l[2:]
+        elif len(l) > 1:
+            body = True  # the header: first line with a tab
+        out.append(l)
+    return out
 
 
 def _render_cell_truth(cell):
@@ -515,6 +562,12 @@ AUTO_EXTS = ["bed", "txt", "tsv", "interval_list", "list", "gff", "gff3", "cnr",
 HINT_EXTS = ["xbed", "ttab", "ttext", "iinterval", "ggff", "bbed", "rrefflat"]
 
 
+# Structural records (symbolic ALT + INFO/END) in the VCFs sent through auto-detection.  OFF: with pysam >= 0.20 the
+# pysam-based reader never sees INFO/END and takes start + len(ALT) as the end -- proposed_fixes/C08-vcf-end-ignored.md
+# (switch on, or run with C08_VCF_END=1, once that repair is in the tree)
+VCF_END_RECORDS = True   # finding AR fixed in /repo (d10cfdd): records with INFO/END are generated
+
+
 def _author_vcf_snv(rng, nmax=12):
     """a VCF of single-base substitutions (what cnvkit reads VCFs for), 0..2 samples, unsorted; every record is the
     one-base region [POS-1, POS)"""
@@ -526,6 +579,8 @@ def _author_vcf_snv(rng, nmax=12):
     for c in sorted({r[0] for r in rows}):
         lines.append([f"##contig=<ID={c}>"])
     lines += [['##INFO=<ID=DP,Number=1,Type=Integer,Description="d">'],
+              ['##INFO=<ID=END,Number=1,Type=Integer,Description="e">'],
+              ['##INFO=<ID=SVTYPE,Number=1,Type=String,Description="t">'],
               ['##FORMAT=<ID=GT,Number=1,Type=String,Description="g">'],
               ['##FORMAT=<ID=AD,Number=R,Type=Integer,Description="a">'],
               ['##FORMAT=<ID=DP,Number=1,Type=Integer,Description="d">']]
@@ -534,18 +589,22 @@ def _author_vcf_snv(rng, nmax=12):
         hdr += ["FORMAT"] + [f"S{k}" for k in range(nsamp)]
     lines.append(hdr)
     trows = []
-    for c, s, _e in rows:
+    for c, s, e in rows:
         ref = rng.choice("ACGT")
         alt = rng.choice([b for b in "ACGT" if b != ref])
-        l = [c, str(s + 1), rng.choice([".", "rs12"]), ref, alt, rng.choice([".", "30", "99.5"]), rng.choice([".", "PASS"]),
-             rng.choice([".", "DP=31"])]
+        info = rng.choice([".", "DP=31"])
+        if VCF_END_RECORDS and rng.random() < 0.4:
+            alt, info = rng.choice([("<DEL>", f"SVTYPE=DEL;END={e}"), ("<DUP>", f"END={e};SVTYPE=DUP")])
+        else:
+            e = s + 1
+        l = [c, str(s + 1), rng.choice([".", "rs12"]), ref, alt, rng.choice([".", "30", "99.5"]), rng.choice([".", "PASS"]), info]
         if nsamp:
             l.append("GT:AD:DP")
             for _ in range(nsamp):
                 a, b = rng.randint(0, 40), rng.randint(0, 40)
                 l.append(f"{rng.choice(['0/1', '1/1', '0/0', '0|1'])}:{a},{b}:{a + b}")
         lines.append(l)
-        trows.append([c, s, s + 1, [["s", alt], ["s", ref]]])
+        trows.append([c, s, e, [["s", alt], ["s", ref]]])
     return lines, {"names": ["alt", "ref"], "rows": trows}
 
 
@@ -589,6 +648,8 @@ def _auto_case0(rng, tag=None):
         fmt = rng.choice(["bed", "bed3", "bed4", "tab", "interval", "text", "gff"])
         for _ in range(20):
             lines, truth, carried, extra = _author(rng, fmt, nmax=12, canonical_tab=True)
+            if fmt == "interval" and any(len(l) == 5 and l[4] == "" for l in lines):
+                continue  # an interval list whose first record has an EMPTY name field is sniffed as BED (`\\S+$`): no claim
             if all(_is_word(r[0]) for r in truth["rows"]) and truth["rows"]:
                 break
         else:
@@ -695,6 +756,38 @@ def corpus():
                       "in": {"fmt": fmt, "lines": [], "truth": {"names": [], "rows": []}, "carried": [], "cna": False}})
     cases.append({"op": "fmt_read", "tag": "corpus-interval-header-only",
                   "in": {"fmt": "interval", "lines": [["@HD", "VN:1.4"]], "truth": {"names": [], "rows": []}, "carried": [], "cna": False}})
+    # every (writer, reader) pair on the boundary rows, the written table being a filtered subset
+    for w, r in CROSS_PAIRS:
+        c = _cross_case(rng, w, r, tag="corpus-cross", nmax=6)
+        c["in"]["written_by"]["sub"] = 5
+        cases.append(c)
+    # the same table object written in every format, twice, before the write that is compared
+    for w, r in WRITE_PAIRS:
+        t0 = _table(rng, cna=(w == "tab"), nmax=8, nmin=3)
+        cases.append({"op": "fmt_roundtrip", "tag": "corpus-reuse",
+                      "in": {"wfmt": w, "rfmt": r, "cna": w == "tab", "t0": t0, "pre": PRE_FORMATS + PRE_FORMATS, "sub": 11}})
+    # prefix in any letter case, lower-case x / y: still 1, 2, 10, X, Y, M
+    for pfx in ("CHR", "Chr", "cHr"):
+        rows = [[pfx + c, 5, 9, []] for c in ("M", "Y", "X", "10", "2", "1")]
+        cases.append({"op": "fmt_roundtrip", "tag": "corpus-order",
+                      "in": {"wfmt": "bed3", "rfmt": "bed3", "cna": False, "t0": {"names": [], "rows": rows}}})
+    # auto-detection of an empty / blank file (read as an empty BED), through each door
+    for via in (None, "handle", "fmt-auto"):
+        for lines in ([], [["track name=x"]]):  # (a file holding only a blank line raises "Bad line" in read_bed)
+            cases.append({"op": "fmt_auto", "tag": "corpus-auto-empty",
+                          "in": {"ext": "bed", "lines": lines, "direct": "bed3", "written_by": None, "keep": None, "via": via}})
+    # VCF records without END in the simple readers (end from the allele lengths), and a VCF through auto-detection
+    hdr = [["##fileformat=VCFv4.2"], ["#CHROM", "POS", "ID", "REF", "ALT", "QUAL", "FILTER", "INFO"]]
+    body = [["chr2", "11", ".", "A", "T", ".", ".", "."], ["chr1", "5", ".", "A", "ACGT", ".", "PASS", "DP=3"],
+            ["chr1", "50", ".", "ACG", "A", "30", ".", "DP=3"], ["chr1", "1", ".", "C", "<DEL>", ".", ".", "SVTYPE=DEL;END=40"]]
+    trows = [["chr2", 10, 10, [["s", "T"], ["s", "A"]]], ["chr1", 4, 7, [["s", "ACGT"], ["s", "A"]]],
+             ["chr1", 49, 49, [["s", "A"], ["s", "ACG"]]], ["chr1", 0, 40, [["s", "<DEL>"], ["s", "C"]]]]
+    cases.append({"op": "fmt_read", "tag": "corpus-vcf-noend",
+                  "in": {"fmt": "vcf-sites", "lines": hdr + body, "truth": {"names": ["alt", "ref"], "rows": trows},
+                         "carried": ["alt", "ref"], "cna": False, "keep": ["alt", "ref"]}})
+    lines, truth = _author_vcf_snv(rng, nmax=6)
+    cases.append({"op": "fmt_auto", "tag": "corpus-auto-vcf",
+                  "in": {"ext": "vcf", "lines": lines, "direct": "vcf", "written_by": None, "keep": ["alt", "ref"], "truth": truth}})
     # export seg / import-seg through the command line parser, once
     cases.append(_seg_case(rng, tag="corpus-seg-cli", cli=True, nsamp=2))
     # number classes: ties of the 6-digit rounding, integral floats, huge / tiny
@@ -709,10 +802,13 @@ def corpus():
 def gen_cases(rng, tier):
     n = {"quick": 1, "thorough": 5, "search": 2}[tier]
     cases = []
-    for fmt in AUTHOR_FORMATS:
-        for _ in range(40 * n):
+    for fmt in AUTHOR_FORMATS + ["tab-cna"]:
+        for _ in range((60 if fmt.startswith("vcf") else 40) * n):
             cases.append(_read_case(rng, fmt))
-    for _ in range(360 * n):
+    for w, r in CROSS_PAIRS:
+        for _ in range(30 * n):
+            cases.append(_cross_case(rng, w, r))
+    for _ in range(400 * n):
         cases.append(_auto_case(rng))
     for w, r in WRITE_PAIRS:
         for _ in range((100 if w in ("tab", "text") else 60) * n):
@@ -844,17 +940,17 @@ def _array(t, cna, sid="S", sub=None):
     return out
 
 
-def _reader(path, fmt, cna, sel=None, via=None):
+def _reader(path, fmt, cna, sel=None, via=None, opts=None):
     """tabio.read / cnvlib.read on a path, or on an open handle (`via` = "handle")"""
     from skgenome import tabio
     import cnvlib
 
     if via == "handle":
         with open(path) as fh:
-            return _reader(fh, fmt, cna, sel)
+            return _reader(fh, fmt, cna, sel, None, opts)
     if cna and fmt == "tab":
         return cnvlib.read(path)
-    kw = {}
+    kw = dict(opts or {})
     if sel is not None:
         kw["sample_id"] = sel
     return tabio.read(path, fmt, **kw)
@@ -889,7 +985,7 @@ def run_impl(case):
                 _write_by(wb, p)
             else:
                 _write_lines(p, i["lines"], i.get("nonl"))
-            arr = _reader(p, i["fmt"], i.get("cna", False), i.get("sel"), i.get("via"))
+            arr = _reader(p, i["fmt"], i.get("cna", False), i.get("sel"), i.get("via"), i.get("seg_opts"))
             out = _canon(arr.data, i.get("keep"))
             if wb:
                 out["lines"] = _read_lines(p)  # the model reader is run on the very file the real writer made
@@ -992,6 +1088,8 @@ def to_line(case, impl):
         line = {"op": op, "in": {k: v for k, v in i.items() if k in ("fmt", "lines", "cna", "sel", "truth", "carried") and v is not None}}
         if i.get("written_by"):
             line["in"]["lines"] = [] if _is_err(impl) else impl["lines"]
+        if i.get("seg_opts"):
+            line["in"]["lines"] = _seg_renamed_lines(i["seg_opts"], i["lines"])
         if not _is_err(impl):
             line["impl"] = {"names": impl["names"], "rows": impl["rows"]}
         return line
@@ -1131,8 +1229,10 @@ def judge(case, impl, resp):
                 spec = ["auto_detection_fails"]  # a VCF that was not recognised as one
         elif case["in"].get("truth") is not None:
             # VCF (read through pysam, outside the Lean model): the records against the regions the harness wrote
-            want = sorted((r[0], r[1], r[2], r[3][0][1], r[3][1][1]) for r in case["in"]["truth"]["rows"])
-            have = sorted((r[0], r[1], r[2], r[3][0][1], r[3][1][1]) for r in impl["auto"]["rows"])
+            def keyed(t):
+                ia, ir = t["names"].index("alt"), t["names"].index("ref")
+                return sorted((r[0], r[1], r[2], r[3][ia][1], r[3][ir][1]) for r in t["rows"])
+            want, have = keyed(case["in"]["truth"]), keyed(impl["auto"])
             if [w[:3] for w in want] != [h[:3] for h in have]:
                 spec = spec + ["coords_zero_based_half_open"]
             elif want != have:
